@@ -24,9 +24,14 @@ def _worker(batch, slow=False):
             out.append(rec)
             continue
         except ExportError as e:
-            rec['grammar_error'] = 'export:' + str(e)[:80]
-            out.append(rec)
-            continue
+            # the tie is broken; try a lenient export so that the search for a failing input can still run
+            try:
+                g, ex = impl.build(desc, slow=slow, lenient=True)
+                rec['export_error'] = 'export:' + str(e)[:80]
+            except Exception:                   # noqa
+                rec['grammar_error'] = 'export:' + str(e)[:80]
+                out.append(rec)
+                continue
         except Exception as e:                  # noqa
             rec['grammar_error'] = 'exception:' + type(e).__name__ + ':' + str(e)[:80]
             out.append(rec)
@@ -222,7 +227,15 @@ def compare(R, recs, stream, mechanism_of=None, check_parse=True, sample_every=9
         if 'grammar_error' in r:
             bump('grammar:' + r['grammar_error'].split(':')[0] + ':' + r['grammar_error'].split(':')[1][:20]
                  if ':' in r['grammar_error'] else 'grammar:' + r['grammar_error'])
+            if r['grammar_error'].startswith('export:'):
+                # sourcer built something the exporter does not know (a new class or attribute): the model cannot be
+                # tied to this grammar, so the correspondence is broken, not skipped
+                R.count(stream, (r['desc'], 'export'), False)
+                R.disagree(stream, {'grammar': r['desc']}, r['grammar_error'], 'an expression tree the exporter can translate')
             continue
+        if 'export_error' in r:
+            R.count(stream, (r['desc'], 'export'), False)
+            R.disagree(stream, {'grammar': r['desc']}, r['export_error'], 'an expression tree the exporter can translate')
         if r.get('model') is None:
             if r.get('cases'):
                 R.disagree(stream, {'grammar': r['desc']}, 'n/a', r.get('model_error', 'no model output'))
